@@ -1153,6 +1153,17 @@ func callResultParams(body *ast.BlockStmt, info *types.Info, pkg *types.Package,
 		default:
 			out = append(out, "callResult "+typeText(t, pkg))
 		}
+		// the call's (non-variadic-spread) arguments, by position: callArg0, callArg1, ...
+		if !ce.Ellipsis.IsValid() {
+			for i, a := range ce.Args {
+				if at := info.TypeOf(a); at != nil {
+					if b, isBasic := at.(*types.Basic); isBasic && b.Info()&types.IsUntyped != 0 {
+						continue
+					}
+					out = append(out, fmt.Sprintf("callArg%d %s", i, typeText(at, pkg)))
+				}
+			}
+		}
 		return false
 	})
 	return out
